@@ -759,12 +759,19 @@ class C09(Spec):
                   "unblock_pop hits exactly the oldest waiter; queue<void> proved to be the image of queue<T> under forgetting the "
                   "items (count conserved, clamp never fires); for every operation list = every interleaving of any number of producers "
                   "and consumers. The models are tied to queue.h by running both on every short history and on generated histories and "
-                  "diffing every line; property oracles run on the implementation trace; a second suite runs real producer/consumer threads")
+                  "diffing every line; property oracles run on the implementation trace; a scheduled suite instantiates the queue with a parking "
+                  "Lock (out-of-lock resolutions delayed past other lock regions, operations issued while another one holds the lock, "
+                  "any second lock region of one operation, lock regions per operation compared with the model, a push whose item "
+                  "constructor throws); items own a heap resource and track their lifetime; a further suite runs real producer/consumer threads")
     level_note = ("trusted: Lean kernel (axioms propext/Classical.choice/Quot.sound at most), the hand-written models, the differential "
                   "harness (sampling + exhaustive short histories), std::queue/std::mutex and the promise/future layer (C01/C02). Thread "
                   "interleavings are covered by the theorems (any interleaving of lock regions and resolutions is an op list); on the real "
                   "code they are exercised sequentially (futures and re-entrant coroutine consumers) and by a thread stress suite")
     assumptions = ["the queue is not destroyed while another thread is inside one of its methods",
+                   "a push whose item constructor throws is covered only when no pop is waiting (`pushthrow`, precondition explicit in "
+                   "model, driver and harness): with a parked promise the constructor runs inside promise::operator() after the promise "
+                   "was moved out of the queue and claimed - the waiting pop then never completes, not even at destruction; that is the "
+                   "promise layer's exception safety (C01), observed on the pinned code, not a queue.h decision",
                    "a consumer's receive order is the order of its pop() calls (a consumer that keeps several pops outstanding may see "
                    "their futures resolved in another order when different producers resolve them)",
                    "std::mutex gives mutual exclusion (each lock region is atomic)"]
